@@ -67,7 +67,7 @@ def leaf_script(rng, big=False):
         return [G.rbytes(rng, rng.choice([252, 253, 65535, 65536, 70000])).hex(), 'OP_DROP', 'OP_1']
     if big and r < 0.3:
         # total encoded script length exactly 251..254 / 65534..65537
-        total = rng.choice([251, 252, 253, 254, 65534, 65535, 65536, 65537])
+        total = rng.choice([251, 252, 253, 254, 65534, 65535, 65536, 65537] + [v for v in G.source_literals() if v >= 80])
         body = total - 2
         ln = body - (2 if body - 2 <= 255 else 3 if body - 3 <= 65535 else 5)
         return [G.rbytes(rng, ln).hex(), 'OP_DROP', 'OP_1']
